@@ -159,6 +159,8 @@ def apply_op(c, op, k, v, show=str):
         if op == "getd":
             x = c.get(k)
             return (NONE if x is None else show(x)), []
+        if op == "has":
+            return ("True" if k in c else "False"), []
         if op == "set":
             c[k] = v
             return NONE, []
@@ -262,7 +264,8 @@ def seq_emit_and_replay():
             "distinct": r.distinct}
 
 
-SEQ_OPS = ([(o, k) for o in ("get", "getd", "del", "set") for k in KEYS] + [("clear", NONE), ("len", NONE), ("keys", NONE)])
+SEQ_OPS = ([(o, k) for o in ("get", "getd", "del", "set") for k in KEYS] + [("has", "a"), ("has", "b")]
+           + [("clear", NONE), ("len", NONE), ("keys", NONE)])
 
 
 def record_seq_trace(m, ops, hasd=True):
@@ -461,6 +464,12 @@ def _conc_emit(args):
     return {"progs": {k: sorted(v) for k, v in progs.items()}, "generated": r.generated, "distinct": r.distinct}
 
 
+def _h32(*a):
+    """Seed derived from the arguments, stable across processes and runs (no str hash())."""
+    import zlib
+    return zlib.crc32(json.dumps(a, sort_keys=True).encode())
+
+
 def _hist_key(h):
     return json.dumps(h, sort_keys=True)
 
@@ -472,6 +481,7 @@ def _conc_run_shard(args):
         instrument_lines(_ruc())
     hists, meta = {}, []
     nsched = 0
+    complete = 0
     out_bad, unreached = [], 0
     maxpre = 0
     kinds = {}
@@ -502,13 +512,15 @@ def _conc_run_shard(args):
             s.hist = hist
             return s
 
-        nsched += explore(once, bound, limit=limit, on_run=lambda s: on_run(s, s.hist))
+        k = explore(once, bound, limit=limit, on_run=lambda s: on_run(s, s.hist))
+        nsched += k
         for j in range(nrand):
-            s = once(RandomChooser(hash((seed, key, j)) & 0xffffffff))
+            s = once(RandomChooser(_h32(seed, key, j)))
             on_run(s, s.hist)
             nsched += 1
-        if allowed is not None:
+        if allowed is not None and (limit is None or k < limit):    # only when the DFS ran to completion
             unreached += len(allowed - seen)
+            complete += 1
     traces = [json.loads(hk) for hk in hists]
     bad, ndrift, drift = [], 0, []
     for a in range(0, len(traces), 400):
@@ -520,7 +532,7 @@ def _conc_run_shard(args):
             if clause != "ok" and len(bad) < 10:
                 bad.append((clause, pos, meta[a + tid - 1]))
     return {"nsched": nsched, "nhist": len(traces), "bad": bad, "ndrift": ndrift, "drift": drift[:3],
-            "out_bad": out_bad, "unreached": unreached, "maxpre": maxpre, "kinds": kinds,
+            "out_bad": out_bad, "unreached": unreached, "complete": complete, "maxpre": maxpre, "kinds": kinds,
             "preempted": sum(1 for x in meta if x["pre"] > 0),
             "sample": traces[len(traces) // 2] if traces else None}
 
@@ -796,7 +808,7 @@ def run_pm_scenario(np, ops):
         for ref in sorted(hands):
             hands.pop(ref)
             ev.append(dict(PM_EV_DEFAULT, op="droph", ref=ref, h=ref, cached=_cached(pm)[0], n=_cached(pm)[1]))
-        pm.clear()
+        pm.__exit__(None, None, None)          # `with PoolManager(...) as pm:` ends with clear()
         ev.append(dict(PM_EV_DEFAULT, op="clear", cached=_cached(pm)[0], n=_cached(pm)[1]))
         gc.collect()
         ev.append(dict(PM_EV_DEFAULT, op="gc", open=sorted(net.open_conns()), live=state.live()))
@@ -1057,7 +1069,7 @@ def _race_shard(args):
 
         nsched += explore(once, bound, limit=limit, on_run=on_run)
         for j in range(nrand):
-            on_run(once(RandomChooser(hash((seed, json.dumps(prog), j)) & 0xffffffff)))
+            on_run(once(RandomChooser(_h32(seed, prog, j))))
             nsched += 1
     traces = [json.loads(hk) for hk in hists]
     bad, ndrift, drift = [], 0, []
@@ -1117,7 +1129,7 @@ def race_programs(rng, n):
 
 
 def random_container_programs(rng, n):
-    ops = [(o, k) for o in ("get", "getd", "set", "del") for k in "abc"] + [("clear", NONE), ("len", NONE), ("keys", NONE)]
+    ops = [(o, k) for o in ("get", "getd", "has", "set", "del") for k in "abc"] + [("clear", NONE), ("len", NONE), ("keys", NONE)]
     out = []
     for _ in range(n):
         m = rng.choice([0, 1, 1, 2, 2, 3])
@@ -1172,7 +1184,7 @@ class _PartA:
         ae = self.emit.get()
         if ae["n"] != ae["generated"] - 4 or ae["n"] == 0:
             raise tlc.MachineryError(f"LRU emission incomplete: {ae['n']} transitions parsed, TLC generated {ae['generated']}")
-        if set(ae["kinds"]) != {"get", "getd", "set", "del", "clear", "len", "keys"}:
+        if set(ae["kinds"]) != {"get", "getd", "has", "set", "del", "clear", "len", "keys"}:
             raise tlc.MachineryError(f"LRU emission misses an operation kind: {ae['kinds']}")
         rep.evaluations += ae["n"]
         rep.nontrivial.update(("tr", i) for i in range(ae["nontriv"]))
@@ -1220,8 +1232,8 @@ class _PartB:
         rep.extra["conc_programs_emitted"] = len(progs)
         rep.extra["conc_outcomes_emitted"] = sum(len(v) for v in progs.values())
         keys = sorted(progs)
-        sel = rng.sample(keys, min(160 if quick else 2400, len(keys)))
-        jobs = [([(k, progs[k]) for k in ch], 2, 120 if quick else 1500, 2 if quick else 10, rep.seed, False)
+        sel = rng.sample(keys, min(144 if quick else 1200, len(keys)))
+        jobs = [([(k, progs[k]) for k in ch], 2, 170 if quick else 1500, 2 if quick else 10, rep.seed, False)
                 for ch in _chunks(sel, NPROC * (1 if quick else 3))]
         rnd = random_container_programs(rng, 32 if quick else 480)
         jobs += [([(k, None) for k in ch], 1, 30 if quick else 200, 10 if quick else 60, rep.seed + 7, True)
@@ -1234,6 +1246,7 @@ class _PartB:
         rep.extra["conc_programs_run"] = self.nprog
         rep.extra["conc_schedules"] = sum(o["nsched"] for o in bouts)
         rep.extra["conc_histories_validated"] = sum(o["nhist"] for o in bouts)
+        rep.extra["conc_programs_explored_to_completion"] = sum(o["complete"] for o in bouts)
         yp = rep.extra["conc_yield_points"] = {}
         for j, o in enumerate(bouts):
             rep.evaluations += o["nsched"]
@@ -1424,11 +1437,13 @@ def run(rep):
     t_start = time.time()
     global _jvm_gate
     _jvm_gate = gate = mp.BoundedSemaphore(JVM_SLOTS)
-    s1 = ThreadPoolExecutor(max(1, min(5, J // 3)))
-    futs = [(kind, s1.submit(fn, arg)) for kind, fn, arg in _stage1_jobs(quick)] if "S" in only else []
     parts = [p for name, p in (("A", _PartA()), ("B", _PartB()), ("C", _PartC())) if name in only]
     secs = {}
+    # The worker processes are forked BEFORE any thread of this process starts a JVM: a fork that
+    # overlaps subprocess.Popen in another thread inherits Popen's exec-error pipe and blocks it.
     with mp.Pool(NPROC, initializer=_init_worker, initargs=(gate,)) as pool:
+        s1 = ThreadPoolExecutor(max(1, min(5, J // 3)))
+        futs = [(kind, s1.submit(fn, arg)) for kind, fn, arg in _stage1_jobs(quick)] if "S" in only else []
         for p in parts:
             p.submit(pool, rep, quick, rng)
         for p in parts:
